@@ -210,6 +210,7 @@ pub fn gen_volume(rng: &mut Rng, p: &VolParams) -> VolumeSpec {
     // a quarter of the volumes contain retransmitted radials: a message repeated byte for byte
     // right after itself (equal in every field to its predecessor) must still be conserved
     let retransmit = rng.chance(1, 4);
+    let shuffled_times = rng.chance(1, 2);
     for (elev, n) in runs {
         // a sweep starts at whatever azimuth the antenna is at: numbering runs through north
         // (…, 719, 720, 1, 2, …); an eighth of the runs carry arbitrary numbers in arbitrary order
@@ -228,7 +229,8 @@ pub fn gen_volume(rng: &mut Rng, p: &VolParams) -> VolumeSpec {
             msg.hdr.spacing = *rng.pick(&[1u8, 2, 2, 1, 0, 4]);
             msg.hdr.az_num = if az_arbitrary { rng.u16() } else { ((az_start + k) % 720 + 1) as u16 };
             msg.hdr.date = base_date;
-            msg.hdr.time = base_time + idx as u32; // unique identity
+            // unique identity; in half of the volumes collection times do not follow file order
+            msg.hdr.time = base_time + if shuffled_times { (idx as u32 * 7919) % 100_003 } else { idx as u32 };
             for b in msg.blocks.iter_mut() {
                 match b {
                     Block::Mom(m) => {
